@@ -69,6 +69,16 @@ def main(argv):
             results.append(r)
     except gen.GenError as e:
         undecided.append('extraction: %s' % e)
+    # no proof step may be assumed away: `assume(..)` is not allowed anywhere in a generated unit; `admit()` only inside the
+    # broadcast axioms of the shim layer (each is listed in the evidence trusted base and covered by the canary below)
+    import re as _re
+    for r in results:
+        txt = r.g.text()
+        for ln, line in enumerate(txt.split('\n'), 1):
+            if _re.search(r'\bassume\s*\(', line) and 'assume_specification' not in line:
+                undecided.append('unexpected assume(..) in generated unit %s line %d' % (r.unit, ln))
+            if 'admit()' in line and 'broadcast proof fn' not in line:
+                undecided.append('unexpected admit() outside a shim axiom in generated unit %s line %d' % (r.unit, ln))
     # vacuity guard on every run: the admitted axioms of each unit must not prove `false`
     canaries = []
     seen_units = set()
